@@ -104,7 +104,7 @@ let run_socket_digest (f : string array) : string =
 
 let () =
   let handlers : (string * (string array -> string)) list ref = ref [
-    ("S", run_socket); ("SDG", run_socket_digest); ("FS", run_framesocket); ("CC", run_closecode); ("HP", run_header_parse); ("HF", run_header_format);
+    ("S", run_socket); ("SI", run_socket_x); ("SDG", run_socket_digest); ("FS", run_framesocket); ("CC", run_closecode); ("HP", run_header_parse); ("HF", run_header_format);
     ("FF", run_frame_format); ("U8", run_utf8); ("MK", run_mask); ("MA", run_message_api) ] in
   handlers := !handlers @ Driver_hs.handlers;
   try
